@@ -368,4 +368,27 @@ func sectionRedirects(t *testing.T, r *ev.Run) {
 	for _, c := range cases {
 		runRedirCase(r, c)
 	}
+	// Where do the odd hosts that DIDToURL accepts make the real client connect to? (observations: the statement names IP literals,
+	// user-info and other hosts; these are none of them — but note what net.Dial does with an empty host.)
+	client.StrictMode = true
+	defer func() { client.StrictMode = false }()
+	for _, ds := range []string{"did:web:%3A8443", "did:web:%3A%3A1", "did:web:2130706433", "did:web:0x7f.0.0.1", "did:web:127.1", "did:web:127.0.0.1.", "did:web:localhost", "did:web:example.com%3A", "did:web:example.com%3A0", "did:web:example.com%3A99999"} {
+		id, err := did.ParseDID(ds)
+		if err != nil {
+			continue
+		}
+		lab.Take()
+		_, _, rerr := didweb.NewResolver().Resolve(*id, nil)
+		_, dials := lab.Take()
+		var addrs []string
+		for _, d := range dials {
+			addrs = append(addrs, d.Addr)
+		}
+		r.Eval(ev.Key([]any{"odd-host-dial", ds}))
+		note := ""
+		if len(addrs) == 1 && strings.HasPrefix(addrs[0], ":") {
+			note = " — net.Dial connects an empty host to the local system"
+		}
+		r.Observation(fmt.Sprintf("%s makes the real client dial %q%s", ds, addrs, note), fmt.Sprint(rerr))
+	}
 }
